@@ -1,0 +1,127 @@
+//go:build verif
+
+// Contracts for govc (/verif): C11 "Historical consensus views depend only on earlier ledger records" — membership half. Comment-only file.
+//
+// The view reported for a timestamp t is NodesListWithoutState(t) (contract in zz_contracts_c10_verif.go, clause [list]: the member list
+// of the LAST cached sequence whose Timestamp is below t). The cached sequences are built once (LoadConsensusNodes ->
+// buildNodeStateSequences): sequence i is nodeSequenceWithoutState(records[i].Timestamp + 1). What is machine-checked here is the
+// characterisation of nodeSequenceWithoutState(threshold) in terms of the records with Timestamp < threshold ONLY:
+//   [latest]   every member copies a record below the threshold, namely the LATEST one of its id below the threshold;
+//   [one-per-id] at most one member per id;  [complete] every id that has a record below the threshold is present (unless filtered by
+//   acceptedOnly);  [sorted] the members are strictly ordered by (Timestamp, IdForNetwork.String()) — a strict TOTAL order on members
+//   with distinct ids (lemma ViewOrderTotal), so the order in which Go iterates over the intermediate map cannot show;
+//   [index]    ConsensusIndex of member k == number of members before k that are ACCEPTED or PLEDGING.
+// Together these determine the result (content and order) as a function of the set of records below the threshold.
+// META-ARGUMENT (not machine-checked): a value that is a function of the records with Timestamp < t is unchanged when records with
+// Timestamp >= t are appended; and NodesListWithoutState(t) selects sequence i with records[i].Timestamp < t, whose threshold
+// records[i].Timestamp + 1 <= t, so the view at t depends on records below t only.
+
+package kernel
+
+//@ -- the ledger's membership records as loaded (one *CNode per NODESTATEQUEUE record), in (Timestamp, Id) order
+//@ spec RecsOK(node *Node) bool = node != nil && !fresh(node.allNodesSortedWithState) &&
+//@     (forall i int :: {node.allNodesSortedWithState[i]} 0 <= i && i < len(node.allNodesSortedWithState) ==>
+//@        node.allNodesSortedWithState[i] != nil && !fresh(node.allNodesSortedWithState[i])) &&
+//@     (forall i, j int :: {node.allNodesSortedWithState[i], node.allNodesSortedWithState[j]} 0 <= i && i < j && j < len(node.allNodesSortedWithState) ==>
+//@        node.allNodesSortedWithState[i].Timestamp <= node.allNodesSortedWithState[j].Timestamp)
+//@ -- member m copies record r (everything but the consensus index, which is assigned per view)
+//@ spec CopyOf(m *CNode, r *CNode) bool = m.IdForNetwork == r.IdForNetwork && m.Signer == r.Signer && m.Payee == r.Payee &&
+//@     m.Transaction == r.Transaction && m.Timestamp == r.Timestamp && m.State == r.State
+//@ -- record i is below the threshold and no later record below the threshold has the same id
+//@ spec LatestBelow(all []*CNode, th uint64, i int) bool = 0 <= i && i < len(all) && all[i].Timestamp < th &&
+//@     (forall j int :: {all[j]} i < j && j < len(all) && all[j].Timestamp < th ==> all[j].IdForNetwork != all[i].IdForNetwork)
+//@ -- the order of a view
+//@ spec Before(x *CNode, y *CNode) bool = x.Timestamp < y.Timestamp || (x.Timestamp == y.Timestamp && x.IdForNetwork.String() < y.IdForNetwork.String())
+//@ spec Active(s string) bool = s == common.NodeStateAccepted || s == common.NodeStatePledging
+//@ rec CountActive(ns []*CNode, n int) mathint = n <= 0 ? 0 : CountActive(ns, n - 1) + (Active(ns[n - 1].State) ? 1 : 0)
+//@ reclimit CountActive
+//@ -- Wit(i): always true; a heap-independent trigger anchor for existential witnesses (the index of the record a member copies): the
+//@ -- element terms all[i] of two heap versions are different terms, Wit(i) is the same term
+//@ uninterp Wit(i mathint) bool
+//@ axiom @C11 forall i mathint :: {Wit(i)} Wit(i)
+
+//@ -- ASSUMED: hex.EncodeToString is injective (two hashes with the same hex string are equal)
+//@ axiom @C11 forall a, b crypto.Hash :: {a.String(), b.String()} a.String() == b.String() ==> a == b
+
+//@ -- the comparator of sort.Slice in nodeSequenceWithoutState
+//@ func (node *Node) nodeSequenceWithoutState$1
+//@   property C11
+//@   requires 0 <= i && i < len(nodes) && 0 <= j && j < len(nodes) && nodes[i] != nil && nodes[j] != nil
+//@   pure
+//@   ensures result <==> Before(nodes[i], nodes[j])
+
+//@ -- the view order on (timestamp, id string) pairs is a strict total order: so a sorted duplicate-free list is determined by its SET of elements
+//@ spec PairLt(t1 mathint, s1 string, t2 mathint, s2 string) bool = t1 < t2 || (t1 == t2 && s1 < s2)
+//@ lemma ViewOrderTotal(t1 mathint, s1 string, t2 mathint, s2 string, t3 mathint, s3 string)
+//@   property C11
+//@   ensures [irreflexive] !PairLt(t1, s1, t1, s1)
+//@   ensures [asymmetric] PairLt(t1, s1, t2, s2) ==> !PairLt(t2, s2, t1, s1)
+//@   ensures [transitive] PairLt(t1, s1, t2, s2) && PairLt(t2, s2, t3, s3) ==> PairLt(t1, s1, t3, s3)
+//@   ensures [total] (t1 != t2 || s1 != s2) ==> PairLt(t1, s1, t2, s2) || PairLt(t2, s2, t1, s1)
+
+//@ -- a 32-byte array VALUE as Go has them (bytes, nothing outside [0, 32)): the typing fact the engine assumes for every array it loads;
+//@ -- stated for the ids of the members because the injectivity axiom of String is restricted to such values
+//@ spec CanonHash(h crypto.Hash) bool = forall w int :: {h[w]} 0 <= h[w] && h[w] < 256 && ((w < 0 || w >= 32) ==> h[w] == 0)
+//@ spec MemberOK(ns []*CNode, k int) bool = ns[k] != nil && fresh(ns[k]) && allocated(ns[k]) && CanonHash(ns[k].IdForNetwork)
+//@ -- member m copies the latest record of its id below the threshold
+//@ spec FromLatest(m *CNode, all []*CNode, th uint64) bool = exists i int :: {Wit(i)} Wit(i) && LatestBelow(all, th, i) && CopyOf(m, all[i])
+
+//@ func (node *Node) nodeSequenceWithoutState
+//@   property C11
+//@   requires RecsOK(node)
+//@   modifies nothing
+//@   ensures [elems] forall k int :: {result[k]} 0 <= k && k < len(result) ==> result[k] != nil && fresh(result[k]) && allocated(result[k])
+//@   ensures [block] len(result) == 0 || (fresh(result) && allocated(result))
+//@   ensures [latest] forall k int :: {result[k]} 0 <= k && k < len(result) ==>
+//@       FromLatest(result[k], node.allNodesSortedWithState, threshold)
+//@   ensures [accepted-only] acceptedOnly ==> forall k int :: {result[k]} 0 <= k && k < len(result) ==> result[k].State == common.NodeStateAccepted
+//@   ensures [one-per-id] forall a, b int :: {result[a], result[b]} 0 <= a && a < b && b < len(result) ==> result[a].IdForNetwork != result[b].IdForNetwork
+//@   ensures [sorted] forall a, b int :: {result[a], result[b]} 0 <= a && a < b && b < len(result) ==> Before(result[a], result[b])
+//@   ensures [index] forall k int :: {result[k]} 0 <= k && k < len(result) ==> result[k].ConsensusIndex == CountActive(result, k)
+//@   -- loop 0: filter[id] is the last record with that id among the records read so far, all of which are below the threshold
+//@   loop 0 invariant [map] filter != nil && fresh(filter)
+//@   loop 0 invariant [below] forall i int :: {node.allNodesSortedWithState[i]} 0 <= i && i <= rangeindex ==> node.allNodesSortedWithState[i].Timestamp < threshold
+//@   loop 0 invariant [filter] forall id crypto.Hash :: {filter[id]} has(filter, id) ==> exists i int :: {Wit(i)} Wit(i) && 0 <= i && i <= rangeindex &&
+//@       filter[id] == node.allNodesSortedWithState[i] && node.allNodesSortedWithState[i].IdForNetwork == id &&
+//@       (forall j int :: {node.allNodesSortedWithState[j]} i < j && j <= rangeindex ==> node.allNodesSortedWithState[j].IdForNetwork != id)
+//@   -- loop 1: one new member per visited key
+//@   loop 1 invariant [filter-latest] forall id crypto.Hash :: {filter[id]} has(filter, id) ==> exists i int :: {Wit(i)} Wit(i) && LatestBelow(node.allNodesSortedWithState, threshold, i) &&
+//@       filter[id] == node.allNodesSortedWithState[i] && node.allNodesSortedWithState[i].IdForNetwork == id
+//@   loop 1 invariant [block] fresh(nodes)
+//@   loop 1 invariant [members] forall k int :: {nodes[k]} 0 <= k && k < len(nodes) ==> MemberOK(nodes, k) && visited(nodes[k].IdForNetwork) &&
+//@       (acceptedOnly ==> nodes[k].State == common.NodeStateAccepted)
+//@   loop 1 invariant [members-latest] forall k int :: {nodes[k]} 0 <= k && k < len(nodes) ==> FromLatest(nodes[k], node.allNodesSortedWithState, threshold)
+//@   loop 1 invariant [distinct] forall a, b int :: {nodes[a], nodes[b]} 0 <= a && a < len(nodes) && 0 <= b && b < len(nodes) && a != b ==> nodes[a].IdForNetwork != nodes[b].IdForNetwork
+//@   hint after Slice [perm-members] forall k int :: {nodes[k]} 0 <= k && k < len(nodes) ==> MemberOK(nodes, k) && (acceptedOnly ==> nodes[k].State == common.NodeStateAccepted)
+//@   hint after Slice [perm-latest] forall k int :: {nodes[k]} 0 <= k && k < len(nodes) ==> FromLatest(nodes[k], node.allNodesSortedWithState, threshold)
+//@   hint after Slice [perm-distinct] forall a, b int :: {nodes[a], nodes[b]} 0 <= a && a < len(nodes) && 0 <= b && b < len(nodes) && a != b ==> nodes[a].IdForNetwork != nodes[b].IdForNetwork
+//@   hint after Slice [perm-sorted] forall a, b int :: {nodes[a], nodes[b]} 0 <= a && a < b && b < len(nodes) ==> Before(nodes[a], nodes[b])
+//@   -- loop 2: consensus indexes
+//@   loop 2 invariant [count] 0 <= i && i <= len(nodes) && 0 <= index && index <= i && index == CountActive(nodes, i)
+//@   loop 2 invariant [unfold] CountActive(nodes, i + 1) == CountActive(nodes, i) + (i >= 0 && Active(nodes[i].State) ? 1 : 0)
+//@   loop 2 invariant [assigned] forall k int :: {nodes[k]} 0 <= k && k < i ==> nodes[k].ConsensusIndex == CountActive(nodes, k)
+
+//@ -- IsView(node, l, th, acc): l is the view nodeSequenceWithoutState(th, acc) computes — the conjunction of its postconditions
+//@ spec IsView(node *Node, l []*CNode, th uint64, acc bool) bool =
+//@     (forall k int :: {l[k]} 0 <= k && k < len(l) ==> l[k] != nil && allocated(l[k]) && !(l[k] == nil) &&
+//@        FromLatest(l[k], node.allNodesSortedWithState, th) && (acc ==> l[k].State == common.NodeStateAccepted) && l[k].ConsensusIndex == CountActive(l, k)) &&
+//@     (forall a, b int :: {l[a], l[b]} 0 <= a && a < b && b < len(l) ==> l[a].IdForNetwork != l[b].IdForNetwork && Before(l[a], l[b]))
+
+//@ -- one cached sequence per record: sequence k is the view at records[k].Timestamp + 1 (i.e. including record k), in record order
+//@ func (node *Node) buildNodeStateSequences(all, acceptedOnly)
+//@   property C11
+//@   requires RecsOK(node) && !fresh(all)
+//@   requires forall i int :: {all[i]} 0 <= i && i < len(all) ==> all[i] != nil && !fresh(all[i])
+//@   modifies nothing
+//@   ensures [len] len(result) == len(all) && (len(result) == 0 || fresh(result))
+//@   ensures [seqs] forall k int :: {result[k]} 0 <= k && k < len(result) ==> result[k] != nil && fresh(result[k]) && result[k].Timestamp == all[k].Timestamp
+//@   ensures [views] forall k int :: {result[k]} 0 <= k && k < len(result) ==>
+//@       IsView(node, result[k].NodesWithoutState, U64(all[k].Timestamp + 1), acceptedOnly)
+//@   ensures [ordered] (forall a, b int :: {all[a], all[b]} 0 <= a && a < b && b < len(all) ==> all[a].Timestamp <= all[b].Timestamp) ==>
+//@       (forall a, b int :: {result[a], result[b]} 0 <= a && a < b && b < len(result) ==> result[a].Timestamp <= result[b].Timestamp)
+//@   loop 0 invariant [recs] RecsOK(node)
+//@   loop 0 invariant [len] len(nodeStateSequences) == len(all) && (len(all) == 0 || fresh(nodeStateSequences))
+//@   loop 0 invariant [seqs] forall k int :: {nodeStateSequences[k]} 0 <= k && k <= rangeindex ==> nodeStateSequences[k] != nil && fresh(nodeStateSequences[k]) &&
+//@       allocated(nodeStateSequences[k]) && nodeStateSequences[k].Timestamp == all[k].Timestamp
+//@   loop 0 invariant [views] forall k int :: {nodeStateSequences[k]} 0 <= k && k <= rangeindex ==>
+//@       IsView(node, nodeStateSequences[k].NodesWithoutState, U64(all[k].Timestamp + 1), acceptedOnly)
